@@ -130,3 +130,11 @@ Proof. vm_compute. reflexivity. Qed.
 (* stix2/exceptions.py as read by the generator: every __str__ / __repr__ / __init__ formats a constant template *)
 Lemma exceptions_templates_ok : exceptions_str_templates_constant = true.
 Proof. reflexivity. Qed.
+
+(* translators/tr_c17flow.py: the operations of the mirrored functions of the current source are all accounted for,
+   and every site has its guarded form there *)
+Lemma source_inventory_ok : source_inventory_reviewed = true.
+Proof. reflexivity. Qed.
+
+Lemma source_all_guarded : all_guarded source_variant.
+Proof. intros s. destruct s; reflexivity. Qed.
